@@ -196,6 +196,22 @@ ADD3 = {
 for pid, text in ADD3.items():
     tech, t0 = ADD[pid]
     ADD[pid] = (tech, t0 + text)
+ADD4 = {
+ "C01": " Round 4: SEQ-ADVANCE exact offsets for the write loops (xz.Writer.Write, Writer2.Write, encoder.Write).",
+ "C02": " Round 4: TM-RC (range-coder state transformers equal frozen templates in 32-bit arithmetic).",
+ "C03": " Round 4: TM-RC.",
+ "C07": " Round 4: TM-RC, CE-VALIDDICT, EF-IO over the classic Writer cone.",
+ "C08": " Round 4: SEQ-ADVANCE exact offsets, SEQ-RAWFILL (library LZMA2 reader side), OB-LCLP.",
+ "C10": " Round 4: the xz reader's container checks (corrupt input must be noticed for the run to fail).",
+ "C11": " Round 4: width-aware arithmetic roles (8/16-bit wrap), SEQ-ADVANCE exact offsets.",
+ "C12": " Round 4: WR-SAME-SOURCE, TM-XZW check encoding.",
+ "C13": " Round 4: WR-SAME-SOURCE, SEQ-ADVANCE exact offsets.",
+ "C15": " Round 4: CE-VALIDDICT (also through ValidHeader when the predicate is folded into it).",
+ "C17": " Round 4: WR-ENCDICT.",
+}
+for pid, text in ADD4.items():
+    tech, t0 = ADD[pid]
+    ADD[pid] = (tech, t0 + text)
 for pid, (tech, text) in ADD.items():
     t0, x0, n0, r0 = CLAIMS[pid]
     CLAIMS[pid] = (t0 + "; " + tech, x0 + text, n0 + "TERM normal forms (term.go), LIN (lin.go), reference function table knownfuncs.txt. ", r0 + ", §12")
